@@ -109,3 +109,34 @@ Proof.
 Qed.
 
 End Range.
+
+(* ------------------------------------------------------------------ round 5: the frames finalize ACCEPTS *)
+(* finalize_error is the accept/refuse decision of FuncFrame::finalize() at /repo HEAD (compared with the implementation on every
+   frame of the stream, refusals included).  Every accepted frame is inside the range where nothing wraps, and an accepted AArch64
+   frame is realisable (the scope of the AArch64 round trip): the refusals are exactly strong enough for the theorems. *)
+Theorem accepted_frames f : wf_in f -> fi_local_align f <= 128 -> fi_call_align f <= 128 -> fi_arg_stack_size f < 2 ^ 16 ->
+  finalize_error f = 0 ->
+  fi_call_size f + fi_local_size f <= 2 ^ 31 - 2 ^ 16 /\
+  (fi_arch f = A64 -> a64_realisable f = true) /\
+  let o := finalize f in
+  0 <= fo_local_off o /\ fo_local_off o <= fo_extra_off o /\ fo_extra_off o + fo_extra_size o <= fo_stack_adj o /\
+  fo_stack_adj o < 2 ^ 31 - 2 ^ 15 /\ 0 <= fo_final_size o < 2 ^ 31 - 2 ^ 15 /\
+  fo_sa_from_sp o < 2 ^ 31 /\ 0 <= fo_sa_from_sa o < 2 ^ 31 /\ fo_da_off o < 2 ^ 31 /\
+  0 <= fo_push_pop_size o <= 2112 /\ 0 <= fo_callee_cleanup o < 2 ^ 16 /\ - 2 ^ 31 <= - fo_final_align o.
+Proof.
+  intros WF Hla Hca Has He. unfold finalize_error, frame_size_limit in He.
+  destruct (Z.ltb_spec 2147418112 (fi_call_size f + fi_local_size f)) as [Hl|Hl]; [discriminate|].
+  assert (R : in_range f) by (unfold in_range; splits'; auto; lia).
+  split; [lia|]. split.
+  - intros HA. rewrite HA in He. destruct (a64_realisable f); [reflexivity | discriminate].
+  - exact (no_wrap f WF R).
+Qed.
+
+(* and the refusals are not arbitrary: finalize refuses ONLY frames above the size limit and unrealisable AArch64 frames *)
+Theorem refused_frames f : finalize_error f <> 0 ->
+  2 ^ 31 - 2 ^ 16 < fi_call_size f + fi_local_size f \/ (fi_arch f = A64 /\ a64_realisable f = false).
+Proof.
+  unfold finalize_error, frame_size_limit. intros H.
+  destruct (Z.ltb_spec 2147418112 (fi_call_size f + fi_local_size f)) as [Hl|Hl]; [left; lia|].
+  right. destruct (fi_arch f); try congruence. destruct (a64_realisable f); [congruence | auto].
+Qed.
